@@ -22,6 +22,8 @@ import (
 type c10Cell struct {
 	Src     string `json:"src"`
 	SrcSub  bool   `json:"src_is_subimage"`
+	SrcBand bool   `json:"src_is_full_width_band,omitempty"`
+	Content int    `json:"content_mode,omitempty"`
 	Dst     string `json:"dst"` // RGBA64 RGBA NRGBA NRGBA64 opaque
 	W       int    `json:"w"`
 	H       int    `json:"h"`
@@ -66,6 +68,16 @@ func c10Fn(name string) (perColor func(color.Color) color.RGBA64, run func(dst d
 	return s.Encode, s.EncodeImage
 }
 
+func c10SubMode(c c10Cell) int {
+	if c.SrcBand {
+		return 2
+	}
+	if c.SrcSub {
+		return 1
+	}
+	return 0
+}
+
 func c10PathClass(c c10Cell) string {
 	switch {
 	case c.Dst == "RGBA64" && c.Src == "RGBA64":
@@ -104,7 +116,7 @@ func c10Run(c c10Cell) (bad bool, msg string) {
 		}
 	}
 	if c.DstMode == "inplace" {
-		m := newSource(c.Src, sr, c.SrcSub, rng)
+		m := newSourceMode(c.Src, sr, c10SubMode(c), c.Content, rng)
 		d, ok := m.(draw.Image)
 		if !ok || pixOf(m) == nil {
 			return false, "inplace not applicable"
@@ -113,7 +125,7 @@ func c10Run(c c10Cell) (bad bool, msg string) {
 		// the parent buffer of an in-place sub-image is reachable through Pix only; compare the view's Pix
 		parent = d
 	} else {
-		src = newSource(c.Src, sr, c.SrcSub, rng)
+		src = newSourceMode(c.Src, sr, c10SubMode(c), c.Content, rng)
 		var dr image.Rectangle
 		switch c.DstMode {
 		case "same":
@@ -127,6 +139,11 @@ func c10Run(c c10Cell) (bad bool, msg string) {
 		case "sub":
 			dr = image.Rect(7, -4, 7+c.W+1, -4+c.H+1)
 			pr := image.Rect(dr.Min.X-3, dr.Min.Y-2, dr.Max.X+4, dr.Max.Y+3)
+			parent = newConcrete(dkind, pr)
+			view = parent.(subImager).SubImage(dr).(draw.Image)
+		case "band": // full-width band of a taller parent: same X range, rows above and below
+			dr = image.Rect(c.OX, c.OY+2, c.OX+c.W, c.OY+2+c.H)
+			pr := image.Rect(dr.Min.X, dr.Min.Y-2, dr.Max.X, dr.Max.Y+3)
 			parent = newConcrete(dkind, pr)
 			view = parent.(subImager).SubImage(dr).(draw.Image)
 		default:
@@ -147,7 +164,7 @@ func c10Run(c c10Cell) (bad bool, msg string) {
 	} else {
 		modelParent = cloneConcrete(parent)
 		modelView = modelParent
-		if c.DstMode == "sub" {
+		if c.DstMode == "sub" || c.DstMode == "band" {
 			modelView = modelParent.(subImager).SubImage(view.Bounds()).(draw.Image)
 		}
 	}
@@ -252,6 +269,30 @@ func c10Cells(seed int64, thorough bool, race bool) []c10Cell {
 			}
 		}
 	}
+	// full-width bands (in place and band-to-band), runs of equal pixels, constant contents
+	for _, sk := range c10SrcKinds {
+		for _, dk := range c10DstKinds {
+			for _, sz := range [][2]int{{7, 5}, {12, 9}} {
+				for _, par := range []int{1, 2, 3, 7} {
+					if race && par == 1 {
+						continue
+					}
+					fn := fns[fi%len(fns)]
+					fi++
+					o := [2]int{3, 2}
+					cells = append(cells,
+						c10Cell{Src: sk, SrcBand: true, Dst: dk, W: sz[0], H: sz[1], OX: o[0], OY: o[1], DstMode: "band", Par: par, Fn: fn, Seed: rng.U64()},
+						c10Cell{Src: sk, SrcSub: true, Dst: dk, W: sz[0], H: sz[1], OX: o[0], OY: o[1], DstMode: "larger", Par: par, Fn: "hash", Content: 1, Seed: rng.U64()},
+						c10Cell{Src: sk, Dst: dk, W: sz[0], H: sz[1], OX: o[0], OY: o[1], DstMode: "sub", Par: par, Fn: fn, Content: 1 + fi%3, Seed: rng.U64()})
+					if sk == dk && dk != "opaque" {
+						cells = append(cells,
+							c10Cell{Src: sk, SrcBand: true, Dst: dk, W: sz[0], H: sz[1], OX: o[0], OY: o[1], DstMode: "inplace", Par: par, Fn: fn, Seed: rng.U64()},
+							c10Cell{Src: sk, SrcBand: true, Dst: dk, W: sz[0], H: sz[1], OX: o[0], OY: o[1], DstMode: "inplace", Par: par, Fn: "hash", Content: 1, Seed: rng.U64()})
+					}
+				}
+			}
+		}
+	}
 	if thorough && !race {
 		// seeded random geometries and a large image per (src,dst)
 		for _, sk := range c10SrcKinds {
@@ -272,8 +313,8 @@ func c10Cells(seed int64, thorough bool, race bool) []c10Cell {
 }
 
 func c10NT(c c10Cell) (string, bool) {
-	nt := c.OX != 0 || c.OY != 0 || c.DstMode == "sub" || c.DstMode == "larger" || c.Par != 1
-	geo := fmt.Sprintf("%dx%d@%d,%d/%v", c.W, c.H, c.OX, c.OY, c.SrcSub)
+	nt := c.OX != 0 || c.OY != 0 || c.DstMode == "sub" || c.DstMode == "band" || c.DstMode == "larger" || c.Par != 1
+	geo := fmt.Sprintf("%dx%d@%d,%d/%v/%v/%d", c.W, c.H, c.OX, c.OY, c.SrcSub, c.SrcBand, c.Content)
 	return fmt.Sprintf("%s|%s|%s|%s|%s|%d|%s", c.Src, c.Dst, c10PathClass(c), geo, c.DstMode, c.Par, c.Fn), nt && c.W*c.H > 0
 }
 
